@@ -105,7 +105,7 @@ def _with_D(lemma, D, *a):
 class DistanceToEdge(Contract):
     level = "property"   # carries property-level lemmas (stated on the spec, tied to the code by post/value)
     target = "sleap_nn.data.edge_maps.distance_to_edge"
-    props = ("C05",)
+    props = ("C05", "C11")
     dims = ("Hg", "Wg", "E")
 
     def inputs(self, c, case):
@@ -216,7 +216,7 @@ class DistanceToEdge(Contract):
 class MakeEdgeMaps(Contract):
     level = "property"   # carries property-level lemmas (stated on the spec, tied to the code by post/value)
     target = "sleap_nn.data.edge_maps.make_edge_maps"
-    props = ("C05",)
+    props = ("C05", "C11")
     dims = ("Hg", "Wg", "E")
 
     def inputs(self, c, case):
@@ -286,7 +286,7 @@ class MakeEdgeMaps(Contract):
 class MakePafs(Contract):
     level = "property"   # carries property-level lemmas (stated on the spec, tied to the code by post/value)
     target = "sleap_nn.data.edge_maps.make_pafs"
-    props = ("C05",)
+    props = ("C05", "C11")
     dims = ("Hg", "Wg", "E")
 
     inputs = MakeEdgeMaps.inputs
@@ -369,7 +369,7 @@ def paf_fold(c, xv, yv, edge_sources, edge_destinations, sigma, n):
 @contract
 class MakeMultiPafs(Contract):
     target = "sleap_nn.data.edge_maps.make_multi_pafs"
-    props = ("C05",)
+    props = ("C05", "C11")
     functional = False
     dims = ("Hg", "Wg", "E", "K")
 
@@ -423,7 +423,7 @@ class MakeMultiPafsLoop(Invariant):
 @contract
 class GetEdgePoints(Contract):
     target = "sleap_nn.data.edge_maps.get_edge_points"
-    props = ("C05",)
+    props = ("C05", "C11")
     dims = ("K", "N", "E")
 
     def inputs(self, c, case):
@@ -460,7 +460,7 @@ class GeneratePafs(Contract):
     """Property-level contract for C05."""
 
     target = "sleap_nn.data.edge_maps.generate_pafs"
-    props = ("C05",)
+    props = ("C05", "C11")
     level = "property"
     functional = False
     cases = ("nested", "flat")
